@@ -5,17 +5,24 @@
 From PNA Require Import Base Codec Chunk Archive Entry Kdf.
 Require Import ZArith ZifyN ZifyNat ZifyBool.
 
+Lemma firstn_salt_len (tape : bytes) :
+  (SALT_LEN + IV_LEN <= length tape)%nat -> length (firstn SALT_LEN tape) = SALT_LEN.
+Proof. intro L. rewrite firstn_length. unfold SALT_LEN, IV_LEN in *. lia. Qed.
+
 Section Facts.
   Variable key : Type.
-  Variable kdf : bytes -> option N -> list (bytes * N) -> bytes -> bytes -> key.
-  Variable kdf_valid : bytes -> option N -> list (bytes * N) -> bytes -> bool.
+  Variable kdf : bytes -> option N -> list (bytes * bytes) -> bytes -> bytes -> key.
+  Variable kdf_valid : bytes -> option N -> list (bytes * bytes) -> bytes -> option bytes -> bool.
   Variable alg_supported : bytes -> bool.
   Variable phc_print : phc -> bytes.
   Variable phc_parse : bytes -> option phc.
   Variable decrypt : key -> bytes -> bytes -> res bytes.
 
-  (* the PHC codec round-trips the records a writer prints (any parameters, any salt) *)
+  (* the PHC codec round-trips the records a writer prints: a salt of SALT_LEN bytes, parameters the KDF
+     crates accept (the PHC format has length limits: not every number, not every salt can be printed) *)
   Hypothesis phc_round_trip : forall h salt,
+    length salt = SALT_LEN ->
+    kdf_valid (alg_name h) (alg_version h) (alg_params h) salt None = true ->
     phc_parse (phc_print (writer_record h salt None)) = Some (writer_record h salt None).
   (* the reader dispatches on the algorithm names the writer records *)
   Hypothesis writer_algs_supported : forall h, alg_supported (alg_name h) = true.
@@ -32,7 +39,8 @@ Section Facts.
     writer_context m h pw tape = Ok (c, t') ->
     let salt := firstn SALT_LEN tape in
     (SALT_LEN + IV_LEN <= length tape)%nat /\
-    kdf_valid (alg_name h) (alg_version h) (alg_params h) salt = true /\
+    length salt = SALT_LEN /\
+    kdf_valid (alg_name h) (alg_version h) (alg_params h) salt None = true /\
     ctx_phsf c = phc_print (writer_record h salt None) /\
     ctx_iv c = firstn IV_LEN (skipn SALT_LEN tape) /\
     ctx_key c = kdf (alg_name h) (alg_version h) (alg_params h) salt pw /\
@@ -42,8 +50,10 @@ Section Facts.
   Proof.
     unfold Kdf.writer_context. cbn [ph_alg ph_version ph_params writer_record].
     destruct (Nat.ltb (length tape) (SALT_LEN + IV_LEN)) eqn:L; [discriminate|].
-    destruct (kdf_valid (alg_name h) (alg_version h) (alg_params h) (firstn SALT_LEN tape)) eqn:V; cbn [negb]; [|discriminate].
-    intro H; inversion H; subst; cbn. apply Nat.ltb_ge in L. repeat split; auto.
+    destruct (kdf_valid (alg_name h) (alg_version h) (alg_params h) (firstn SALT_LEN tape) None) eqn:V; cbn [negb]; [|discriminate].
+    intro H; inversion H; subst. apply Nat.ltb_ge in L.
+    pose proof (firstn_salt_len tape L) as SL.
+    cbn [ctx_phsf ctx_iv ctx_key ctx_mode ctx_segment]. repeat split; auto.
   Qed.
 
   (* C16: the recorded values are sufficient — for every algorithm, parameter and salt the writer records *)
@@ -51,8 +61,8 @@ Section Facts.
     writer_context m h pw tape = Ok (c, t') ->
     reader_key (ctx_phsf c) pw = Ok (ctx_key c).
   Proof.
-    intro W. destruct (writer_context_inv _ _ _ _ _ _ W) as (_ & V & P & _ & K & _).
-    unfold Kdf.reader_key. rewrite P, phc_round_trip. cbn [ph_alg ph_salt ph_version ph_params writer_record].
+    intro W. destruct (writer_context_inv _ _ _ _ _ _ W) as (_ & SL & V & P & _ & K & _).
+    unfold Kdf.reader_key. rewrite P, (phc_round_trip _ _ SL V). cbn [ph_alg ph_salt ph_version ph_params ph_hash writer_record].
     rewrite writer_algs_supported, V, K. reflexivity.
   Qed.
 
@@ -94,7 +104,7 @@ Section Facts.
     decode enc m (Some (ctx_phsf c)) (Some pw) (ctx_iv c ++ ct) = Ok content.
   Proof.
     intros E W L D. pose proof (right_password_reads _ _ _ _ _ _ W) as R.
-    destruct (writer_context_inv _ _ _ _ _ _ W) as (LT & _ & _ & IV & _).
+    destruct (writer_context_inv _ _ _ _ _ _ W) as (LT & _ & _ & _ & IV & _).
     assert (length (ctx_iv c) = IV_LEN) as LI.
     { rewrite IV, firstn_length, skipn_length. unfold SALT_LEN, IV_LEN in *. lia. }
     unfold Kdf.decode, Kdf.decode_open, Kdf.decode_guard.
@@ -119,9 +129,9 @@ Section Facts.
     decode enc m (Some (ctx_phsf c)) (Some pw') (ctx_iv c ++ ct) <> Ok content.
   Proof.
     intros W NC CD E.
-    destruct (writer_context_inv _ _ _ _ _ _ W) as (LT & V & P & IV & K & _).
+    destruct (writer_context_inv _ _ _ _ _ _ W) as (LT & SL & V & P & IV & K & _).
     assert (reader_key (ctx_phsf c) pw' = Ok (kdf (alg_name h) (alg_version h) (alg_params h) (firstn SALT_LEN tape) pw')) as R.
-    { unfold Kdf.reader_key. rewrite P, phc_round_trip. cbn [ph_alg ph_salt ph_version ph_params writer_record].
+    { unfold Kdf.reader_key. rewrite P, (phc_round_trip _ _ SL V). cbn [ph_alg ph_salt ph_version ph_params ph_hash writer_record].
       rewrite writer_algs_supported, V. reflexivity. }
     assert (length (ctx_iv c) = IV_LEN) as LI.
     { rewrite IV, firstn_length, skipn_length. unfold SALT_LEN, IV_LEN in *. lia. }
@@ -140,8 +150,8 @@ End Facts.
 (* ---- C08 -------------------------------------------------------------------------------- *)
 Section Fresh.
   Variable key : Type.
-  Variable kdf : bytes -> option N -> list (bytes * N) -> bytes -> bytes -> key.
-  Variable kdf_valid : bytes -> option N -> list (bytes * N) -> bytes -> bool.
+  Variable kdf : bytes -> option N -> list (bytes * bytes) -> bytes -> bytes -> key.
+  Variable kdf_valid : bytes -> option N -> list (bytes * bytes) -> bytes -> option bytes -> bool.
   Variable phc_print : phc -> bytes.
   Notation writer_context := (writer_context key kdf kdf_valid phc_print).
   Notation write_all := (write_all key kdf kdf_valid phc_print).
@@ -149,12 +159,14 @@ Section Fresh.
 
   (* what is written as PHSF parses back to a record WITHOUT hash: the key is not in the archive *)
   Theorem phsf_has_no_hash (phc_parse : bytes -> option phc) m h pw tape c t' :
-    (forall h salt, phc_parse (phc_print (writer_record h salt None)) = Some (writer_record h salt None)) ->
+    (forall h salt, length salt = SALT_LEN ->
+       kdf_valid (alg_name h) (alg_version h) (alg_params h) salt None = true ->
+       phc_parse (phc_print (writer_record h salt None)) = Some (writer_record h salt None)) ->
     writer_context m h pw tape = Ok (c, t') ->
     exists p, phc_parse (ctx_phsf c) = Some p /\ ph_hash p = None.
   Proof.
-    intros RT W. destruct (writer_context_inv _ _ _ _ _ _ _ _ _ _ W) as (_ & _ & P & _).
-    rewrite P, RT. eexists; split; reflexivity.
+    intros RT W. destruct (writer_context_inv _ _ _ _ _ _ _ _ _ _ W) as (_ & SL & V & P & _).
+    rewrite P, (RT _ _ SL V). eexists; split; reflexivity.
   Qed.
 
   (* spans of the tape: consecutive pieces *)
@@ -194,7 +206,7 @@ Section Fresh.
     - destruct (writer_context m h pw tape) as [[c t]| |] eqn:W; cbn [bind]; try discriminate.
       destruct (contexts_n n m h pw t) as [[cs' t'']| |] eqn:R; cbn [bind]; try discriminate.
       intro H; inversion H; subst.
-      destruct (writer_context_inv _ _ _ _ _ _ _ _ _ _ W) as (LT & _ & P & IV & _ & _ & SEG & T).
+      destruct (writer_context_inv _ _ _ _ _ _ _ _ _ _ W) as (LT & _ & _ & P & IV & _ & _ & SEG & T).
       destruct (IH _ _ _ R) as (E & F). split.
       + cbn [map concat]. rewrite <- app_assoc, <- E, SEG, T. symmetry; apply firstn_skipn.
       + constructor; [|exact F]. split.
